@@ -1,6 +1,7 @@
 package loadbalancer
 
 import (
+	"net/http"
 	"sync"
 	"time"
 
@@ -323,5 +324,32 @@ func VerifC05RRConcurrent(n int, threads int, perThread int) {
 	total := threads * perThread
 	for i := range count {
 		verifrt.Assert(count[i]*n == total, "round_robin: concurrent pickers give every backend exactly k of n*k requests")
+	}
+}
+
+// VerifC05PickDuringBookkeeping: a pick that overlaps health bookkeeping which
+// leaves the eligible set as it is - a successful probe of a healthy backend, an
+// admin listing - still obeys the strategy's contract: least_connections picks
+// the backend with the fewest requests in flight, round_robin and
+// weighted_round_robin pick an eligible backend (never nil).
+func VerifC05PickDuringBookkeeping(strategy int) {
+	lb := verifBareLB(strategy)
+	bs := make([]*Backend, 3)
+	for i := range bs {
+		bs[i] = verifBackend(i)
+		lb.strategy.AddBackend(bs[i])
+	}
+	bs[0].ActiveConnections, bs[1].ActiveConnections, bs[2].ActiveConnections = 3, 0, 5
+	probed := bs[verifrt.Choice("probedBackend", 3)]
+	var got *Backend
+	verifrt.Go(func() { got = lb.NextBackend(verifRequest("10.1.2.3:4711")) })
+	verifrt.Go(func() {
+		lb.processHealthCheckResponse(probed, &http.Response{StatusCode: http.StatusOK})
+		lb.ListBackends()
+	})
+	verifrt.WaitAll()
+	verifrt.Assert(got != nil, "a pick that overlaps a successful probe still finds an eligible backend")
+	if strategy == 1 {
+		verifrt.Assert(got == bs[1], "least_connections picks the backend with the fewest requests in flight, whatever bookkeeping runs at the same time")
 	}
 }
